@@ -23,7 +23,7 @@ use crate::{
 use super::{
     dot_lookup::DotChain, function::FunctionType, list::Index, map_err, new_err, r#type::IntoType,
     string::AstString, ClassType, CompilationState, Compile, CompileTimeEvaluate, CompiledItem,
-    Dependencies, Dependency, FunctionArguments, NativeType, StrWrapper, TemporaryRegister,
+    Dependencies, Dependency, FunctionArguments, Ident, NativeType, StrWrapper, TemporaryRegister,
     TypeLayout, Value,
 };
 
@@ -197,6 +197,18 @@ pub(crate) enum Expr {
 }
 
 impl Expr {
+    /// The variable at the root of an assignable expression: `a` in `a`, `a[0]`, `a.b.c`, `(a)[1].d`.
+    /// Returns `None` if the expression is not rooted at a named variable (`self`, a call, a literal...).
+    fn assignment_root(&self) -> Option<&Ident> {
+        match self {
+            Expr::Value(Value::Ident(ident)) => Some(ident),
+            Expr::Value(Value::MathExpr(inner)) => inner.assignment_root(),
+            Expr::Index { lhs_raw, .. } => lhs_raw.assignment_root(),
+            Expr::DotLookup { lhs, .. } => lhs.assignment_root(),
+            _ => None,
+        }
+    }
+
     pub(crate) fn validate(
         &self,
         flags: &TypecheckFlags<impl Deref<Target = ClassType> + Debug>,
@@ -234,11 +246,35 @@ impl Expr {
                             }
                             Cow::Owned(lhs.for_type(flags)?)
                         }
-                        index @ Expr::Index { .. } => Cow::Owned(index.for_type(flags)?),
-                        Expr::DotLookup { expected_type, .. } => Cow::Borrowed(expected_type),
+                        Expr::Index { .. } | Expr::DotLookup { .. } => {
+                            // same rule as `a[i] = v` / `a.b = v`: nothing can be written through a const root
+                            if let Some(root) = lhs.assignment_root() {
+                                if root.is_const() {
+                                    bail!(
+                                        "cannot reassign using {op} through {}, which is const",
+                                        root.name()
+                                    )
+                                }
+                            }
+
+                            match lhs.as_ref() {
+                                Expr::DotLookup { expected_type, .. } => Cow::Borrowed(expected_type),
+                                index => Cow::Owned(index.for_type(flags)?),
+                            }
+                        }
                         _ => bail!("invalid left operand for {op} (cannot apply to {})", lhs.for_type(flags)?),
                     }
                 } else {
+                    if let (Op::Unwrap, Expr::Value(Value::Ident(ident))) = (op, lhs.as_ref()) {
+                        // `a ?= b` stores the unwrapped value of `b` in `a`
+                        if ident.is_const() {
+                            bail!(
+                                "cannot reassign using {op} to {}, which is const",
+                                ident.name()
+                            )
+                        }
+                    }
+
                     Cow::Owned(lhs.for_type(flags)?)
                 };
 
